@@ -6,11 +6,12 @@ EXPLANATION = (
     "output_format == Summary, and the two write_all calls of the output thread whose payload is the buffer carried "
     "by FormatResult::SuccessBufferedOutput / Diff; SuccessBufferedOutput is built only in format_string from the "
     "format_code result, or from the unchanged input on the should_skip edge, and never on the error edge; (R-FS) "
-    "no file-system mutation is reachable from format_string; the library never touches stdout. Not decided: "
+    "no file-system mutation is reachable from format_string; the library never touches stdout; (R-IGNOREARG) both questions `is this path ignored?` (stdin path, walked file) pass opt.search_parent_directories itself. Not decided: "
     "partial writes (OS), exit code beyond R-EXIT.")
 ASSUMPTIONS = ["std::io::Write::write_all writes exactly its argument or reports an error",
                "rustc MIR and Instance::try_resolve are trusted"]
 
 
 def run(ctx):
-    return [r_cli.rule_stdout(ctx, "C17", stdin_clause=True), r_cli.rule_fs(ctx, "C17", stdin_clause=True)]
+    return [r_cli.rule_stdout(ctx, "C17", stdin_clause=True), r_cli.rule_fs(ctx, "C17", stdin_clause=True),
+            r_cli.rule_ignore_arg(ctx, "C17")]
